@@ -235,7 +235,7 @@ Proof.
       * intros t' i H. rewrite alookup_aset_neq; [exact H| congruence].
       * intros t' H. apply in_or_app. left. exact H.
       * lia.
-      * exact M.
+      * congruence.
       * congruence.
   - unfold taxon_bitmask in E. destruct (alookup t (bm n)).
     + inversion E; subst. apply grows_refl.
